@@ -1,7 +1,6 @@
 (* Conc/PipelineLiveGen2.v — the invariant of the whole system, part 2: the ring *)
 From Coq Require Import List Arith Bool Lia.
-From SKV Require Import Conc.Pipeline Conc.PipelineExplore Conc.PipelineSpec Conc.PipelineLiveCore Conc.PipelineLiveCore2
-  Conc.PipelineLiveCore3 Conc.PipelineLiveCore4 Conc.PipelineLiveGen.
+From SKV Require Import Conc.Pipeline Conc.PipelineExplore Conc.PipelineSpec Conc.PipelineLiveBase Conc.PipelineLiveGen.
 Import ListNotations.
 
 Lemma r1_gframe : forall c s s0 i t x, GInv c s -> thr_at s i t ->
